@@ -42,6 +42,78 @@ def run(ctx):
     if enc:
         _encoder(ctx, P.bodies[enc[0]])
     _r4_decoder(ctx)
+    _r8_tristate(ctx)
+
+
+def _tristate_ok(P, v, depth=0):
+    """a tri-state setting (not given / null / value) stored by the loader is the untouched default or ConfigValue::from_option(parser(..)?)"""
+    v = norm(v)
+    if v[0] == "phi":
+        return all(_tristate_ok(P, x, depth) for x in v[1])
+    if v[0] == "agg" and v[1].endswith("config::ConfigValue") and v[2] == "NotSpecified":
+        return True
+    if v[0] == "call" and "ConfigValue" in str(v[1]) and str(v[1]).endswith("Default>::default"):
+        return True
+    if v[0] == "call" and str(v[1]).endswith("ConfigValue::<T>::from_option") and len(v[2]) == 1:
+        a = norm(v[2][0])
+        return a[0] == "payload" and norm(a[2])[0] == "call" and "::parse" in str(norm(a[2])[1])
+    if v[0] == "field" and v[2].isdigit() and depth < 2:
+        # an element of the tuple returned by a sub-parser: the same rule applies to what that parser returns
+        src = norm(v[1])
+        if src[0] == "payload" and norm(src[2])[0] == "call" and str(norm(src[2])[1]) in P.bodies:
+            cb = P.bodies[str(norm(src[2])[1])]
+            T = terms(P, cb)
+            oks = []
+            for bb, idx, st in cb.stmts():
+                if st.get("rv") and st["rv"]["k"] == "agg" and st["rv"].get("variant") == "Ok" and st["p"] == (0,):
+                    t = norm(T.rvalue(st["rv"], bb, idx))
+                    tup = norm(t[3][0][1])
+                    if tup[0] == "agg" and tup[1] == "tuple":
+                        oks.append(dict(tup[3]).get(v[2]))
+            return bool(oks) and all(o is not None and _tristate_ok(P, o, depth + 1) for o in oks)
+    return False
+
+
+def _r8_tristate(ctx):
+    P = ctx.P
+    adt = P.adts.get("erbium::radv::config::Interface")
+    fns = [f for f in P.bodies if f.endswith("radv::config::parse_interface")]
+    if adt is None or not fns:
+        if ctx.config in ("default", "radv"):
+            ctx.bad("R8", "anchor:parse_interface", "", "interface parser not found")
+        return
+    tri = [f["name"] for v in adt["variants"] for f in v["fields"] if "config::ConfigValue<" in f["ty"]]
+    b = P.bodies[fns[0]]
+    ctx.saw(b)
+    T = terms(P, b)
+    n = 0
+    for _, bb, idx, s in find_aggs(P, "radv::config::Interface", [b]):
+        t = norm(T.rvalue(s["rv"], bb, idx))
+        fl = dict(t[3])
+        for f in tri:
+            n += 1
+            ctx.check(_tristate_ok(P, fl[f]), "R8", "tri-state:%s<-from_option(parser)" % f, ctx.where(b, s["sp"]),
+                      "`null` must suppress the option: the stored value has to be the untouched default or ConfigValue::from_option(<parser>(key, v)?), "
+                      "which maps null to DontSet (is %s)" % show(norm(fl[f]))[:160])
+    ctx.floor("R8", "tri-state interface settings", n, 8)
+    # from_option itself: None -> DontSet, Some(x) -> Value(x)
+    fo = [f for f in P.bodies if f.endswith("config::ConfigValue::<T>::from_option")]
+    if fo:
+        fb = P.bodies[fo[0]]
+        cfg = cfg_of(fb)
+        Tf = terms(P, fb)
+        built = {}
+        for bb, idx, st in fb.stmts():
+            if st.get("rv") and st["rv"]["k"] == "agg" and str(st["rv"].get("adt", "")).endswith("config::ConfigValue"):
+                built[st["rv"]["variant"]] = bb
+        sw = [bb for bb, tm in fb.terms() if tm["k"] == "switch" and norm(Tf.at_term(tm["discr"], bb))[0] == "discr"]
+        good = set(built) == {"DontSet", "Value"} and len(sw) == 1
+        if good:
+            none_e, some_e = discr_edges(cfg, sw[0], 0), discr_edges(cfg, sw[0], 1)
+            good = edge_dominated(cfg, none_e, built["DontSet"]) and edge_dominated(cfg, some_e, built["Value"])
+        ctx.check(good, "R8", "from_option:None->DontSet,Some->Value", ctx.where(fb), "")
+    else:
+        ctx.bad("R8", "anchor:from_option", "", "ConfigValue::from_option not found")
 
 
 def _r1(ctx):
@@ -305,6 +377,8 @@ def _encoder(ctx, b):
         rem = [s for bb, idx, s in b.stmts() if bb in blocks and s.get("rv") and s["rv"]["k"] == "bin" and s["rv"]["op"] == "Rem" and s["rv"]["b"].get("k", {}).get("int") == "8"]
         inloop = any(bb in l for l in loops for bb in blocks)
         ctx.check(bool(rem) and inloop, "R3", "option:%s:padded-to-multiple-of-8" % name, ctx.where(b), "")
+    for name in ("DnsSearchList", "CaptivePortal"):
+        _padded_length(ctx, b, T, cfg, loops, arms.get(name, set()), name, out_local)
     w = arm_writes("DnsSearchList")
     if len(w) >= 3:
         ctx.check(w[2][1] == ("const", 0), "R6", "option:Dnssl:reserved=0", ctx.where(b), "")
@@ -477,6 +551,132 @@ def _r4_decoder(ctx):
             wrong = {c: table.get(c) for c, L in inv.items() if table.get(c) != L}
             ctx.check(not wrong, "R4", "pref64-plc:decode:%s" % ("=rfc8781" if not wrong else "wrong-for-plc-" + "/".join(str(k) for k in sorted(wrong))), ctx.where(b, s["sp"]),
                       "RFC 8781 4: PLC 0=/96 1=/64 2=/56 3=/48 4=/40 5=/32; the decoder (%s) gives %s" % (how, {k: table.get(k) for k in sorted(inv)}))
+
+
+def _ev(t, env):
+    """value of an integer term for a given size of the variable-length item (env: length atom -> int); None when not evaluable"""
+    t = norm(t)
+    k = t[0]
+    if k == "const":
+        return t[1] if isinstance(t[1], int) and not isinstance(t[1], bool) else None
+    if k == "field" and t[2] == "0" and norm(t[1])[0] == "bin":
+        return _ev(t[1], env)
+    if k == "field" and norm(t[1])[0] == "const" and isinstance(norm(t[1])[1], int):
+        return norm(t[1])[1]
+    if k == "cast" and t[1] == "IntToInt":
+        v = _ev(t[3], env)
+        bits = {"u8": 8, "u16": 16, "u32": 32, "u64": 64, "usize": 64}.get(t[2])
+        return None if v is None or bits is None else v & ((1 << bits) - 1)
+    if k == "bin":
+        op = t[1].replace("WithOverflow", "").replace("Unchecked", "")
+        a, c = _ev(t[2], env), _ev(t[3], env)
+        if a is None or c is None:
+            return None
+        try:
+            return {"Add": a + c, "Sub": a - c, "Mul": a * c, "Div": a // c if c else None, "Rem": a % c if c else None,
+                    "Shl": a << c, "Shr": a >> c, "BitAnd": a & c, "BitOr": a | c}.get(op)
+        except (ValueError, TypeError):
+            return None
+    if k == "call" and isinstance(t[1], str):
+        last = t[1].rsplit("::", 1)[-1]
+        if last == "len" and len(t[2]) == 1:
+            return env.get(_atom(t[2][0]))
+        if last in ("unwrap", "expect", "unwrap_or", "branch") and t[2]:
+            return _ev(t[2][0], env)
+        if last in ("try_from", "try_into", "from", "into") and t[2]:
+            return _ev(t[2][-1], env)
+        if last == "div_ceil" and len(t[2]) == 2:
+            a, c = _ev(t[2][0], env), _ev(t[2][1], env)
+            return None if a is None or not c else -(-a // c)
+        if last in ("min", "max") and len(t[2]) == 2:
+            a, c = _ev(t[2][0], env), _ev(t[2][1], env)
+            return None if a is None or c is None else (min(a, c) if last == "min" else max(a, c))
+    if k == "payload":
+        return _ev(t[2], env)
+    return None
+
+
+def _atom(x):
+    """identity of a variable-length byte container: the term it originates from, views removed"""
+    x = norm(x)
+    while x[0] == "call" and isinstance(x[1], str) and x[1].rsplit("::", 1)[-1] in ("as_str", "as_bytes", "as_slice", "deref", "as_ref", "clone", "into_bytes", "borrow") and x[2]:
+        x = norm(x[2][0])
+    return x
+
+
+def _len_atoms(t):
+    return {_atom(y[2][0]) for y in subterms(norm(t)) if y[0] == "call" and isinstance(y[1], str) and y[1].rsplit("::", 1)[-1] == "len" and len(y[2]) == 1}
+
+
+def _padded_length(ctx, b, T, cfg, loops, blocks, name, out_local):
+    """a zero-padded option: the length octet times 8 is the number of octets the arm appends, for every size of the padded item.
+    The length expression, the padding loop's exit condition and the sizes of the items written are read off the code and the
+    expression is evaluated over the whole range of sizes (0..2048)."""
+    P = ctx.P
+    where = ctx.where(b)
+    key = "option:%s:length-octet*8=octets-written" % name
+    ws = [(bb, g, v, recv, tm) for bb, g, v, recv, tm in _writes(P, b, T, cfg, blocks)]
+    mine = [w for w in ws if w[3] == out_local]
+    # the padding loop: a loop inside the arm whose exit test is Rem(E, 8) != 0
+    pad = None
+    for bb, tm in b.terms():
+        if bb in blocks and tm["k"] == "switch":
+            d = norm(T.at_term(tm["discr"], bb))
+            for y in subterms(d):
+                if y[0] == "bin" and y[1] == "Rem" and norm(y[3]) == ("const", 8) and any(bb in l and l <= blocks | {bb} for l in loops):
+                    pad = (bb, norm(y[2]), min((l for l in loops if bb in l), key=len))
+    if pad is None or len(mine) < 2:
+        ctx.bad("R9", key + ":unrecognised", where, "no padding loop of the form `while E % 8 != 0` / fewer than two writes found in the arm; cannot decide")
+        return
+    pbb, E, ploop = pad
+    L = mine[1][2]
+    pads_main = any(w[0] in ploop for w in mine)
+    atoms = _len_atoms(E) | _len_atoms(L)
+    sized = [w for w in mine if WIDTH.get(w[1]) is None]     # variable-size items appended to the packet
+    fixed = sum(WIDTH[w[1]] for w in mine if WIDTH.get(w[1]) is not None and w[0] not in ploop)
+    bad = None
+    checked = 0
+    if not pads_main:
+        # pad a scratch buffer X, then append it: E and L are functions of len(X); the arm appends `fixed + len(X)` octets
+        xs = {_atom(w[2]) for w in sized}
+        if len(xs) != 1 or not (_len_atoms(E) <= xs) or not (_len_atoms(L) <= xs):
+            ctx.bad("R9", key + ":unrecognised", where, "cannot relate the padded buffer, the padding condition and the length octet (E=%s, L=%s)" % (show(E)[:80], show(L)[:80]))
+            return
+        x = list(xs)[0]
+        for n in range(0, 2049):
+            env = {x: n}
+            e = _ev(E, env)
+            if e is None:
+                bad = "padding condition not evaluable"
+                break
+            if e % 8:
+                continue
+            l = _ev(L, env)
+            tot = fixed + n
+            checked += 1
+            if tot // 8 > 255:
+                continue
+            if l is None or tot % 8 or l != tot // 8:
+                bad = "with a padded size of %d the arm appends %d octets but the length octet is %s" % (n, tot, l)
+                break
+    else:
+        # append the item, then pad the packet itself: the arm appends roundup8(fixed + len(item)) octets (options start 8-aligned)
+        xs = {_atom(w[2]) for w in sized}
+        if len(xs) != 1 or not (_len_atoms(L) <= xs):
+            ctx.bad("R9", key + ":unrecognised", where, "cannot relate the item written and the length octet (L=%s)" % show(L)[:80])
+            return
+        x = list(xs)[0]
+        for n in range(0, 2049):
+            tot = -(-(fixed + n) // 8) * 8
+            l = _ev(L, {x: n})
+            checked += 1
+            if tot // 8 > 255:
+                continue
+            if l is None or l != tot // 8:
+                bad = "with an item of %d octets the arm appends %d octets but the length octet is %s" % (n, tot, l)
+                break
+    ctx.check(bad is None and checked > 0, "R9", key, ctx.where(b, mine[1][4]["sp"]),
+              "RFC 4861 4.6: the Length field counts units of 8 octets including type and length; %s" % (bad or "holds for every size 0..2048 (%d sizes)" % checked))
 
 
 def _option_arms(P, b, T, cfg, loops):
